@@ -97,7 +97,7 @@ func RunTLC(o TLCOpts, onCase func(json.RawMessage)) (*TLCResult, error) {
 		os.WriteFile(filepath.Join(tmp, cfg), []byte(o.CfgText), 0o644)
 	}
 	if o.Xmx == "" {
-		o.Xmx = "6g" // a small heap is markedly faster here than the wrapper's 25% of RAM (page faulting under ParallelGC)
+		o.Xmx = defaultXmx // a small heap is markedly faster here than the wrapper's 25% of RAM (page faulting under ParallelGC)
 	}
 	gcThreads := 4
 	if o.Simulate > 0 || o.Workers < 4 {
@@ -162,6 +162,9 @@ func RunTLC(o TLCOpts, onCase func(json.RawMessage)) (*TLCResult, error) {
 	}
 	return res, nil
 }
+
+// defaultXmx: java heap of a TLC run that does not name one ("6g" quick, "14g" thorough: see runCheck)
+var defaultXmx = "6g"
 
 func handleTLCLine(line string, res *TLCResult, onCase func(json.RawMessage), noCases bool) {
 	if strings.HasPrefix(line, `"CASE `) {
